@@ -8,9 +8,18 @@
 
     Encoder logic per mention of a function f (encode.go [encode] + function.go [recursionPickler.Pickle]):
       - f already memoized as a finished object      -> a memo reference to the finished environment  ([TRef])
-      - f asked about before and still in progress   -> the placeholder ("dawn","Recursive",(name,))   ([TRec])
+      - f asked about before and still in progress   -> the placeholder ("dawn","Recursive",(name, ordinal))  ([TRec])
         (the first such request creates the placeholder and memoizes it under f; later ones hit that memo entry)
-      - otherwise: mark f as asked, pickle its parts, memoize f                                         ([TFun]) *)
+      - otherwise: mark f as asked, pickle its parts, memoize f                                         ([TFun])
+
+    [ordinal]: recursionPickler.seen maps a function to len(seen) at the moment it is first asked about, i.e. to the
+    number of functions asked about before it; [asked] lists the functions asked about, latest first, so the ordinal of
+    a function is the length of the list behind it.  The placeholder carries it (function.go, since 7738be5).
+    A memo reference is BINGET <memo id> in the stamp and the shared decoded object in the decoded environment: either
+    identifies the function object referred to.  Memo ids count every memoized value (strings, containers ...), which this
+    model does not have; [TRef] carries the same identification in the model's own terms: the ordinal of the function
+    referred to (equal stamps have equal memo ids at equal positions, which denote the objects memoized at equal earlier
+    positions, hence functions of equal ordinal -- the abstraction loses nothing the stamp does not have). *)
 From Coq Require Export List NArith Bool Lia.
 Export ListNotations.
 Open Scope N_scope.
@@ -25,10 +34,17 @@ Fixpoint lookup {A} (k : N) (m : list (N * A)) : option A :=
   end.
 Definition mem (k : N) (l : list N) : bool := existsb (N.eqb k) l.
 
+(** position of [f] in the order of first requests, [l] = functions asked about so far, latest first *)
+Fixpoint ordinal (f : N) (l : list N) : N :=
+  match l with
+  | [] => 0
+  | a :: r => if f =? a then N.of_nat (length r) else ordinal f r
+  end.
+
 Inductive tree :=
 | TFun (name code : N) (children : list tree)
-| TRec (name : N)
-| TRef (name : N)
+| TRec (name ord : N)
+| TRef (name ord : N)
 | TUnknown.                       (* a mention of an object outside the graph: never produced by the reifier *)
 
 Record st := mkSt { asked : list N; finished : list N }.
@@ -48,8 +64,8 @@ Fixpoint walk (fuel : nat) (g : graph) : st -> list N -> res :=
         match lookup f g with
         | None => continue TUnknown s
         | Some fd =>
-            if mem f (finished s) then continue (TRef (f_name fd)) s
-            else if mem f (asked s) then continue (TRec (f_name fd)) s
+            if mem f (finished s) then continue (TRef (f_name fd) (ordinal f (asked s))) s
+            else if mem f (asked s) then continue (TRec (f_name fd) (ordinal f (asked s))) s
             else match fuel with
                  | O => OutOfFuel
                  | S fuel' =>
